@@ -95,6 +95,14 @@ def drive(ctx):
                     cd = dict(cd, y=0, mo=0)        # a timedelta carries whole days only
                 ctx.emit("add_cal_date", {"c": cd, "entry": D_ENTRIES[n % 7]},
                          [{"k": "date", "w": [d.year, d.month, d.day], "cls": "Date"}])
+    # (a') 29 February shifted by whole years only (no month shift), every entry point, Date and DateTime
+    for (y0, yrs) in ctx.mine([(y0, yrs) for y0 in (2020, 2024, 2000, 2096) for yrs in (1, -1, 2, 3, 4, 5, -3, 100, -100, 400)]):
+        for en in ("add", "subtract", "plus_dur", "minus_dur", "plus_neg_dur"):
+            n += 1
+            c = C(y=yrs)
+            ctx.emit("add_cal_date", {"c": c, "entry": en}, [{"k": "date", "w": [y0, 2, 29], "cls": "Date"}])
+            ctx.emit("add_cal", {"c": c, "entry": en}, [mk_dt(UTCZ if n % 2 else NAIVE, [y0, 2, 29, 1, 2, 3, 4], 0)])
+            ctx.emit("add_cal_date", {"c": C(y=yrs, d=1), "entry": en}, [{"k": "date", "w": [y0, 2, 29], "cls": "Date"}])
     # (b) targets inside / at the edges of gaps and overlaps
     full = ctx.backend == "rs" or not q
     for zn in ctx.mine(real_zone_names(ctx)) + ctx.mine(synth_zone_names(ctx)):
